@@ -159,7 +159,7 @@ def run(ctx):
         srcs = []
         for f in recordings.list_recordings():
             if os.path.getsize(f) < (900000 if q else 10 ** 9): srcs.append(f)
-        srcs = srcs[: (3 if q else 12)]
+        srcs = srcs[: (3 if q else 8)]
         syn = os.path.join(tmp, 'syn.wowsreplay'); battle.write_wows(syn, '13_2_0', random.Random(1)); srcs.append(syn)
         syn2 = os.path.join(tmp, 'syn.wotreplay'); battle.write_simple(syn2, 'wot', '1_10_0', random.Random(1)); srcs.append(syn2)
         # an old-format battle whose unsigned bit-mask fields have every bit set (what one flipped top bit makes of them): the undamaged parse of
@@ -167,7 +167,7 @@ def run(ctx):
         wv = battle.wows_versions()
         syn3 = os.path.join(tmp, 'syn-old.wowsreplay'); battle.write_wows(syn3, [v for v in wv if v.startswith('0_8_')][0], random.Random(2), extreme=True); srcs.append(syn3)
         syn4 = os.path.join(tmp, 'syn-09.wowsreplay'); battle.write_wows(syn4, [v for v in wv if v.startswith('0_9_')][0], random.Random(2), extreme=True); srcs.append(syn4)
-        n_per = 24 if q else 400
+        n_per = 24 if q else 120
         worst = dict(wall=0, rss=0)
         for src in srcs:
             data = open(src, 'rb').read(); ext = src.rsplit('.', 1)[-1]
